@@ -61,7 +61,7 @@ def run(ctx):
     budget = 55 if ctx.quick else 700
     ctx.rule = ("random tensors (7 symmetries, ranks 2-5, non-zero charge, rectangular sectors, real/complex, plain/lazy/hard-/meta-fused), random "
                 "bipartitions and orders, sU/sQ in {+1,-1}, nU, Uaxis/Vaxis/Qaxis/Raxis; svd, qr, eigh, eig; structure exact, numerics to 1e-10; "
-                "non-trivial = >=2 blocks; distinct by (sym, legs, axes, options)")
+                "non-trivial = >=2 blocks; distinct by (sym, legs, axes, options); eig/eigh: arbitrary leg order (lazy or materialised, non-involutive permutations), rows/columns meta-fused alike or differently, charged eig with nU, axis positions over the whole negative range, mis-ordered column legs must be rejected, operand bit-identical after every factorisation, svd(compute_uv=False)")
     for it in range(ncase):
         if ctx.elapsed() > budget:
             ctx.count("stopped-by-time-budget")
